@@ -334,7 +334,14 @@ class C16(core.Prop):
         return self.oracle_table(case, fail, F)
 
     def oracle_table(self, case, fail, F):
-        d = tempfile.mkdtemp(prefix='c16_')
+        # every table of a run is written to the same paths (data and metadata regenerated in place, as a pipeline does)
+        if getattr(self, '_tdir', None) is None:
+            self._tdir = tempfile.mkdtemp(prefix='c16_')
+            import atexit
+            atexit.register(lambda p_=self._tdir: shutil.rmtree(p_, ignore_errors=True))
+        d = self._tdir
+        for fn in os.listdir(d):
+            os.remove(os.path.join(d, fn))
         try:
             delim = case['delimiter'] or ','
             enc = case['encoding'] or 'utf-8'
@@ -462,7 +469,7 @@ class C16(core.Prop):
                             fail('value', 'column %r row %d: %r read as %r' % (c['name'], r, v, g), hk + 'value:' + t)
             return F
         finally:
-            shutil.rmtree(d, ignore_errors=True)
+            pass
 
 
 PROP = C16
